@@ -2,11 +2,12 @@
 import math, contextlib
 from fractions import Fraction
 import numpy as np
+import pandas as pd
 import scipy.stats
 from menelaus.data_drift import KdqTreeStreaming, KdqTreeBatch
 from menelaus.partitioners.KDQTreePartitioner import KDQTreePartitioner
 from . import coqgen as G
-from .common import feq, lifecycle_obs, priv, obs_term
+from .common import rebound, feq, lifecycle_obs, priv, obs_term
 from .detectors import seed_of
 from .c08 import kl_exact, close
 
@@ -56,11 +57,14 @@ def entropy_logged():
         except Exception:
             LOG.append(None)
         return r
-    scipy.stats.entropy = wrapped
-    try:
+    with rebound(scipy.stats, "entropy", wrapped):
         yield
-    finally:
-        scipy.stats.entropy = orig
+
+
+from menelaus.data_drift.kdq_tree import KdqTreeDetector as _KD
+# the logging subclass overrides this private method by name; when it no longer exists the bootstrap divergences (an
+# oracle input of the model) cannot be separated from the other entropy calls and the case is not model-checked
+HOOK = callable(getattr(_KD, "_get_critical_kld", None))
 
 
 class _BootLog:
@@ -139,6 +143,29 @@ def one_call(det, fn, x):
     return kls, boot
 
 
+POISON = 12345.678
+
+
+def feed(case, rows, m):
+    """the object handed to the detector for these rows (case["input"]: ndarray or single-dtype DataFrame) and a
+    function that overwrites it in place afterwards - what a caller re-using one buffer does before the next call"""
+    mode = case.get("input", "array")
+    a = arr(rows, m)
+    if mode.startswith("df"):
+        obj = pd.DataFrame(a, columns=[f"ax {j}" for j in range(m)])   # the names the tree view uses for unnamed columns
+        def poison():
+            obj.iloc[:, :] = POISON
+            try:
+                obj.values[:] = POISON
+            except Exception:
+                pass
+    else:
+        obj = a
+        def poison():
+            obj[:] = POISON
+    return obj, (poison if mode.endswith("poison") else (lambda: None))
+
+
 def run_impl(case):
     if case["kind"] == "quantile":
         out = []
@@ -152,9 +179,11 @@ def run_impl(case):
         prev_sig = None
         for i, r in enumerate(case["data"]):
             np.random.seed(seed_of(case, i))
-            kls, boot = one_call(det, det.update, arr([r], m))
+            x, poison = feed(case, [r], m)
+            kls, boot = one_call(det, det.update, x)
             ds, tot, sin = lifecycle_obs(det)
             pc = public_counts(det)
+            poison()
             row = {"ds": ds, "total": tot, "since": sin, "tsize": getattr(det, "_test_data_size", None),
                    "counter": getattr(det, "_drift_counter", None), "tdist": priv(det, "_test_dist"), "crit": priv(det, "_critical_dist"),
                    "has_tdist": hasattr(det, "_test_dist"), "has_crit": hasattr(det, "_critical_dist"),
@@ -167,14 +196,17 @@ def run_impl(case):
     for i, (op, b) in enumerate(case["ops"]):
         np.random.seed(seed_of(case, i))
         fn = det.set_reference if op == "ref" else det.update
-        kls, boot = one_call(det, fn, arr(b, m))
+        x, poison = feed(case, b, m)
+        kls, boot = one_call(det, fn, x)
         ds, tot, sin = lifecycle_obs(det)
         pc = public_counts(det)
         rd = getattr(det, "ref_data", None)
+        rd = None if rd is None else np.asarray(rd, dtype=float).reshape(-1, m).tolist()
+        poison()
         rows.append({"ds": ds, "total": tot, "since": sin, "tdist": priv(det, "_test_dist"), "crit": priv(det, "_critical_dist"),
                      "has_tdist": hasattr(det, "_test_dist"), "has_crit": hasattr(det, "_critical_dist"),
                      "kls": kls, "boot": boot, "pc": pc,
-                     "ref_data": None if rd is None else np.asarray(rd, dtype=float).reshape(-1, m).tolist()})
+                     "ref_data": rd})
     return {"rows": rows}
 
 
@@ -458,6 +490,8 @@ def coq_term(case, obs):
         for l, a1, a2 in case.get("pairs", []):
             ts.append(f"chk_antitone {G.fltlist(l)} {G.flt(a1)} {G.flt(a2)}")
         return "(" + " && ".join(ts) + ")"
+    if not HOOK:
+        return None
     rows, qs, xs = [], [], []
     stream = case["kind"] == "stream"
     for i, row in enumerate(obs["rows"]):
@@ -706,7 +740,7 @@ def gen_cases(ctx):
     rng = ctx.np_rng(9)
     cases = []
     st = ctx.stats
-    for key in ("kind", "window_size", "persistence", "alpha", "bootstrap_samples", "count_ubound", "m"):
+    for key in ("kind", "window_size", "persistence", "alpha", "bootstrap_samples", "count_ubound", "m", "input"):
         st[key] = {}
     def bump(key, v):
         st[key][str(v)] = st[key].get(str(v), 0) + 1
@@ -738,6 +772,10 @@ def gen_cases(ctx):
     for c in cases:
         bump("kind", c["kind"] + ("/" + c["fam"] if "fam" in c else ""))
         if c["kind"] != "quantile":
+            # how the caller passes the data: fresh ndarray, single-dtype DataFrame, or either one overwritten in
+            # place right after the call (a caller re-using its buffer)
+            c["input"] = rng.choice(["array", "array", "df", "df_poison", "df_poison", "array_poison"])
+            bump("input", c["input"])
             for key in ("window_size", "persistence", "alpha", "bootstrap_samples", "count_ubound"):
                 if key in c["params"]:
                     bump(key, c["params"][key])
@@ -785,7 +823,10 @@ def extra(ctx):
         nb = 3000
         det = KdqTreeBatch(alpha=alpha, bootstrap_samples=nb)
         np.random.seed(ctx.seed % 2 ** 31)
-        v = float(det._get_critical_kld(list(ref_counts), n))
+        gck = getattr(det, "_get_critical_kld", None)
+        if gck is None:
+            return {"bootstrap_statistical_validation": "skipped: the bootstrap method is not reachable by its name"}
+        v = float(gck(list(ref_counts), n))
         p = distn(ref_counts)
         a = rng.multinomial(n, p, size=100000)
         b = rng.multinomial(n, p, size=100000)
